@@ -521,7 +521,7 @@ func init() {
 		hdrAlphaFile(c)
 		hdrE2E(c)
 		hdrAuthOnlyGroups(c)
-		c.close([]string{"hdr:authonly-allowed-groups", "hdr:htpasswd-groups-later", "alpha:merge", "canon:valid", "canon:invalid", "unit:req", "unit:resp", "wire:req", "legacy:flags",
+		c.close([]string{"hdr:linebreak-values", "hdr:authonly-allowed-groups", "hdr:htpasswd-groups-later", "alpha:merge", "canon:valid", "canon:invalid", "unit:req", "unit:resp", "wire:req", "legacy:flags",
 			"sess:nil", "sess:cookie-like", "sess:bearer-like", "sess:basic-like", "sess:random",
 			"monitor:spoof-stripped", "monitor:preserved-client-kept", "monitor:nosession-empty", "cfg:shared-canonical-key",
 			"e2e:cookie", "e2e:bearer", "e2e:basic", "e2e:bypass-nosession", "e2e:bypass-session", "e2e:authonly-202",
@@ -1288,6 +1288,32 @@ func hdrAuthOnlyGroups(c *suiteCtx) {
 		for _, h := range pv.Hits {
 			if g := strings.Join(h.Header.Values("X-Forwarded-Groups"), ","); g != want {
 				c.violation("C07", "after an auth-only request with a group constraint, the same session is forwarded with other groups", map[string]interface{}{"query_before": q, "session_groups": want, "x_forwarded_groups": g})
+			}
+		}
+	}
+	// identity values with a LINE BREAK in them (a directory that lets users choose display names, a group called "admin\r\n-candidates"):
+	// whatever the proxy does with such a request — refuse it, fail it — no header reaches the upstream carrying a PIECE of the value
+	{
+		lb := defaultUser()
+		lb.Sub, lb.PreferredUser = "mallory\nroot", "mallory\r\nroot"
+		lb.Groups = []interface{}{"admin\r\n-candidates", "dev"}
+		lck := e.issueSessionCookie(e.sessionFor(lb, 30*time.Second))
+		pv := e.do(reqSpec{Target: "/app/linebreak", Cookie: lck})
+		c.casen("hdr|linebreak", fmt.Sprint(pv.Status))
+		c.count("hdr:linebreak-values")
+		for _, h := range pv.Hits {
+			for name, whole := range map[string][]string{"X-Forwarded-User": {"mallory\nroot"}, "X-Forwarded-Groups": {"admin\r\n-candidates", "dev"}} {
+				for _, got := range h.Header.Values(name) {
+					for _, piece := range strings.Split(got, ",") {
+						ok := false
+						for _, w := range whole {
+							ok = ok || piece == w
+						}
+						if !ok {
+							c.violation("C07", "the upstream received an identity header carrying a PIECE of a session value that contains a line break: a value that does not belong to the session", map[string]interface{}{"header": name, "received": got, "session_values": whole})
+						}
+					}
+				}
 			}
 		}
 	}
